@@ -45,6 +45,57 @@ def model_case(ctx, idx, rng):
     ctx.ok('model.bond-dims>=schmidt-ranks', all(b >= r for b, r in zip(H.bond_dims, ranks)), 'a bond is smaller than the Schmidt rank: the oracle or the MPO is wrong', detail)
 
 
+ROUND = [1.0, -1.0, 2.0, -2.0, 0.5, 1.0, 1.0]
+
+
+def build_round(name, L, rng):
+    """Parameter points with exactly representable 'round' values (1.0 in particular: the value internal code likes to use as a sentinel):
+    all parameters round, or generic parameters with one / a few entries replaced by exactly 1.0."""
+    how = str(rng.choice(['all-round', 'one-unit', 'few-units']))
+    if name in ('molecular', 'spin-molecular'):
+        t = rng.uniform(0.1, 2, size=(L, L)) * rng.choice([-1, 1], size=(L, L))
+        v = rng.uniform(0.1, 2, size=(L, L, L, L)) * rng.choice([-1, 1], size=(L, L, L, L))
+        k = 1 if how == 'one-unit' else int(rng.integers(2, 2 + L))
+        for _ in range(k):
+            if rng.random() < 0.6 or how == 'one-unit':
+                t[int(rng.integers(0, L)), int(rng.integers(0, L))] = float(rng.choice([1.0, 1.0, -1.0]))
+            else:
+                v[tuple(int(x) for x in rng.integers(0, L, size=4))] = float(rng.choice([1.0, 1.0, -1.0, 2.0]))
+        fn = ptn.molecular_hamiltonian_mpo if name == 'molecular' else ptn.spin_molecular_hamiltonian_mpo
+        return fn(t, v, optimize=True), {'tkin': t, 'how': how}, how
+    if how == 'all-round':
+        p = tuple(float(rng.choice(ROUND)) for _ in range(3))
+    else:
+        p = list(generic(rng, 3))
+        for j in ([int(rng.integers(0, 3))] if how == 'one-unit' else [0, 1, 2][:int(rng.integers(2, 4))]):
+            p[j] = float(rng.choice([1.0, 1.0, -1.0]))
+        p = tuple(p)
+    if name.startswith('bose'):
+        return ptn.bose_hubbard_mpo(int(name[4:]), L, *p), {'params': p, 'how': how}, how
+    return gen.model(name, L, p), {'params': p, 'how': how}, how
+
+
+def round_params_case(ctx, idx, rng):
+    """Round parameter points (exactly 1.0, -1.0, 2.0, 0.5): wherever the operator Schmidt ranks at such a point equal those of a generic point of the
+    same model and size (no accidental cancellation), the point behaves generically and the bond dimensions must equal the ranks."""
+    name, d, lmax = MODELS[idx % len(MODELS)]
+    L = 2 + (idx // len(MODELS)) % (lmax - 1)
+    H, par, how = build_round(name, L, rng)
+    Hg, _ = build(name, L, rng)                 # a generic point of the same model and size
+    M = refs.dense_operator(H.A)
+    Mg = refs.dense_operator(Hg.A)
+    ranks = [1] + [refs.operator_schmidt_rank(M, d, L, c) for c in range(1, L)] + [1]
+    ranks_g = [1] + [refs.operator_schmidt_rank(Mg, d, L, c) for c in range(1, L)] + [1]
+    generic_like = ranks == ranks_g
+    ctx.case((name, f'L{L}', 'round-' + how, 'generic-ranks' if generic_like else 'reduced-ranks'), nontrivial=generic_like, sample=dict(par, model=name, L=L), info=dict(par, model=name, L=L))
+    detail = dict(par, model=name, L=L, bond_dims=H.bond_dims, ranks=ranks, generic_ranks=ranks_g)
+    if generic_like:
+        ctx.ok('model.bond-dims==schmidt-ranks[round-parameters]', list(H.bond_dims) == ranks, f'bond dims {H.bond_dims} vs operator Schmidt ranks {ranks} at a round parameter point', detail)
+    else:
+        ctx.skip('model.bond-dims==schmidt-ranks[round-parameters]')
+    ctx.ok('model.bond-dims>=schmidt-ranks', all(b >= r for b, r in zip(H.bond_dims, ranks)), 'a bond is smaller than the Schmidt rank: the oracle or the MPO is wrong', detail)
+
+
 def chains_case(ctx, idx, rng):
     L = int(rng.integers(2, 9))
     kind = str(rng.choice(['few', 'many', 'shared-prefix', 'shared-suffix', 'with-zeros']))
@@ -110,6 +161,7 @@ SPEC = {
     'deciding': ['model.bond-dims==schmidt-ranks', 'chains.bond-dim<=number-of-chains', 'simplify.no-bond-increase'],
     'workloads': [
         Workload('models', model_case, quick=300, thorough=16200),
+        Workload('round-parameters', round_params_case, quick=200, thorough=12000),
         Workload('chains', chains_case, quick=1800, thorough=200000),
         Workload('simplify', random_graph_case, quick=900, thorough=100000),
     ],
